@@ -190,7 +190,18 @@ impl Property for C12 {
         if let Err(p) = catch(|| run(case, &mut out)) {
             out.violate(format!("C12/panic/{}/{}", panic_site(&p), panic_msg(&p)), p);
         }
+        // one case in 64 additionally runs the node-level equivocation scenario (full nodes)
+        if !out.failed() && case.seed % 64 == 0 {
+            let o = node_equivocation_check(case.seed, case.seed % 128 == 0);
+            out.checks += o.checks;
+            out.labels.extend(o.labels);
+            out.violations.extend(o.violations);
+        }
         out
+    }
+    fn regressions(&self) -> Vec<Case> {
+        // always exercise the node-level scenario once per run
+        vec![Case { slot: 5, slice: 0, is_last: true, data_len: 10, seed: 0, leader: 1, which: 0, muts: vec![], cache: CacheMode::None, other_key: false, deliveries: vec![], conflict: None }]
     }
 }
 
@@ -367,6 +378,115 @@ fn run(case: &Case, out: &mut Outcome) {
         out.check(invalid == 0, "C12/correct-leader-flagged/at-end", || format!("{invalid} InvalidBlock events"));
         if case.deliveries.iter().any(|(_, m)| m.is_some()) {
             out.label("store-no-false-flag-scenario");
+        }
+    }
+}
+
+/// Node-level clause: a full node that is shown two validly signed versions of a slice must
+/// report the leader (invalid-block notice => it skips instead of notarising either version).
+pub fn node_equivocation_check(seed: u64, other_flag: bool) -> Outcome {
+    use alpenglow::consensus::ConsensusMessage;
+    use crate::fixtures::net::with_runtime;
+    use crate::fixtures::nsim::{Diss, Iface, Switch, addr, advance, start_node};
+    use crate::fixtures::votes::{CKind, VKind, cert_kind, classify_vote};
+
+    let r = catch(|| {
+        with_runtime(true, seed, async move {
+            let mut out = Outcome::default();
+            let n = 4usize;
+            let byz = 1usize; // leader of window 1 (slots 4..=7)
+            let stakes = vec![1u64; n];
+            let live: Vec<usize> = (0..n).filter(|i| *i != byz).collect();
+            let switch = Switch::new(Box::new(|_f, _t, _i, _c| Some(20)));
+            let nodes: Vec<_> = live.iter().map(|i| start_node(&switch, &stakes, *i, Diss::Rotor)).collect();
+            // wait until slot 3 is notarised everywhere (ParentReady(4) follows)
+            let mut h3 = None;
+            let mut waited = 0;
+            let mut log = Vec::new();
+            while waited < 8000 && h3.is_none() {
+                advance(50).await;
+                waited += 50;
+                log.extend(switch.take_consensus_log());
+                for e in &log {
+                    if let Ok(ConsensusMessage::Cert(c)) = alpenglow::network::deserialize::<ConsensusMessage>(&e.bytes)
+                        && c.slot().inner() == 3
+                        && cert_kind(&c) == CKind::Notar
+                    {
+                        h3 = c.block_hash().cloned();
+                    }
+                }
+            }
+            let Some(h3) = h3 else {
+                out.label("node-scenario=chain-did-not-start");
+                return out;
+            };
+            advance(60).await;
+            // two versions of slice 0 of slot 4 signed by the Byzantine leader
+            let parent = Some((alpenglow::types::Slot::new(3), h3));
+            let mut a = make_slice(4, 0, true, None, tx_data(&[]));
+            a.parent = parent.clone();
+            let mut b = a.clone();
+            if other_flag {
+                b.is_last = false;
+            } else {
+                b.data = tx_data(&[alpenglow::Transaction(vec![7; 9])]);
+            }
+            let sa = shred_slice(&a, byz);
+            let sb = shred_slice(&b, byz);
+            let bytes = |s: &ValidatedShred| wincode::serialize(s.as_shred()).unwrap_or_default();
+            for v in &live {
+                let to = addr(Iface::Disseminator, *v);
+                switch.inject(to, bytes(&sa[0]));
+                switch.inject(to, bytes(&sb[1]));
+                for s in sa.iter().skip(2) {
+                    switch.inject(to, bytes(s));
+                }
+            }
+            advance(400).await;
+            log.extend(switch.take_consensus_log());
+            let mut notar: std::collections::BTreeSet<usize> = Default::default();
+            let mut skip: std::collections::BTreeSet<usize> = Default::default();
+            for e in &log {
+                if let Ok(ConsensusMessage::Vote(v)) = alpenglow::network::deserialize::<ConsensusMessage>(&e.bytes) {
+                    let c = classify_vote(&v);
+                    if c.slot == 4 {
+                        match c.kind {
+                            VKind::Notar => {
+                                notar.insert(c.signer);
+                            }
+                            VKind::Skip => {
+                                skip.insert(c.signer);
+                            }
+                            _ => {}
+                        }
+                    }
+                }
+            }
+            out.checks += 1;
+            out.nontrivial = true;
+            out.label("node-scenario=equivocating-leader");
+            if !notar.is_empty() || skip.len() < live.len() {
+                out.violate(
+                    "C12/node/equivocation-not-reported",
+                    format!(
+                        "every correct node received a shred of version A and then a shred of a conflicting version ({}) of slice 0 of slot 4 before the block was complete; nodes that notarised a version: {notar:?}, nodes that skipped: {skip:?} (expected: all of {live:?} skip)",
+                        if other_flag { "other last flag" } else { "other payload" }
+                    ),
+                );
+            }
+            for nd in &nodes {
+                nd.cancel.cancel();
+                nd.task.abort();
+            }
+            out
+        })
+    });
+    match r {
+        Ok(o) => o,
+        Err(p) => {
+            let mut o = Outcome::default();
+            o.violate(format!("C12/node/panic/{}/{}", panic_site(&p), panic_msg(&p)), p);
+            o
         }
     }
 }
